@@ -619,7 +619,8 @@ def run_history(h, ops, on_rec, on_reset=None, both_sides=True, do_gen=True):
                 key = id(state)
                 if key not in h.probes:
                     h.probes[key] = h.probe_signature(state, mst)
-            rec = h.exec_gen(state, mst, act, op[3], op[4], opname="g")
+            # (now and then on a fresh copy of the saved state: a state is its tensor, not the object)
+            rec = h.exec_gen(state.copy() if op[2] % 7 == 5 else state, mst, act, op[3], op[4], opname="g")
             on_rec(h, rec, None)
             if probing:
                 now = h.probe_signature(state, mst)
